@@ -97,7 +97,7 @@ def check(ctx):
                             and isinstance(st.value, ast.Constant) and st.value.value == 1 for st in ast.walk(m.node))
                     what = 'a counter incremented by one per row'
                 elif cname.endswith('bytes'):
-                    okv = '.tell()' in txt
+                    okv = '.tell()' in txt or 'os.path.getsize(' in txt or '.st_size' in txt
                     what = 'the tell() of the written file'
                 else:
                     okv = 'hexdigest()' in txt
